@@ -321,9 +321,6 @@ def oracle(hist, lines):
                     return i, "array %d holds storage %s whose data have been released" % (k, o.st)
                 if int(o.nl) != cnt[o.st]:
                     return i, "storage %s: n_links()=%s but %d live arrays refer to it" % (o.st, o.nl, cnt[o.st])
-            elif o.alloc is not None and o.alloc.startswith("S"):
-                if k not in soft and not (status == "ok" and c in ("soft", "cp", "cpc", "cpm", "sl", "link", "linksl")):
-                    return i, "array %d has no storage yet its data() points into library storage %s (live=%s)" % (k, o.alloc, o.L)
         if n != len(cnt):
             return i, "n_storage_objects()=%d but %d storages are referred to by live arrays (leak or double release)" % (n, len(cnt))
         # ---------------- frame: who may have changed structurally
@@ -361,10 +358,13 @@ def oracle(hist, lines):
                 if k in prev_objs and k not in targets and o.v != prev_objs[k].v and o.v != "!" and prev_objs[k].v != "!":
                     if o.alloc not in written:
                         return i, "%s changed the values seen by array %d (%s), which lives in another allocation than the one written" % (op, k, o.at)
-        for o in objs.values():
+        soft &= set(objs)
+        for k, o in objs.items():
             if o.st != "-":
                 seen_labels.add(o.st)
-        soft &= set(objs)
+            elif o.alloc is not None and o.alloc.startswith("S") and k not in soft:
+                # only soft links (and what was made from them) may look into library storage without holding it
+                return i, "array %d has no storage yet its data() points into library storage %s (live=%s)" % (k, o.alloc, o.L)
         prev_objs, prev_exts, prev_n = objs, exts, n
     return None
 
@@ -453,6 +453,8 @@ def op_rule(c, a, objs, prev, exts, prev_exts, seen_labels, soft):
         o, o0 = objs[a[0]], prev[a[0]]
         if c == "am" and a[0] != a[1] and objs[a[1]].struct() not in (prev[a[1]].struct(), o0.struct()):
             return "move assignment left its source neither untouched nor with the target's old data"
+        if c == "am" and a[0] != a[1] and a[0] in soft and objs[a[1]].struct() == o0.struct() != prev[a[1]].struct():
+            soft.add(a[1])                               # swap: the source now is the (empty) uncounted view
         # value of the right-hand side before the statement
         if c in ("ac", "am", "amfn", "amdup"):
             src = prev[a[1]].v if prev[a[1]].len else []
